@@ -53,6 +53,19 @@ func Msg(uuid string) *message.Message {
 	return m
 }
 
+// Clone is an independent snapshot of UUID, payload and metadata made without Message.Copy (the oracles must
+// not depend on the API under test).
+func Clone(m *message.Message) *message.Message {
+	c := message.NewMessage(m.UUID, append([]byte(nil), m.Payload...))
+	if m.Payload == nil {
+		c.Payload = nil
+	}
+	for k, v := range m.Metadata {
+		c.Metadata[k] = v
+	}
+	return c
+}
+
 // SameContent compares UUID, payload and metadata (as sets of pairs) without using Message.Equals.
 func SameContent(a, b *message.Message) bool {
 	if a.UUID != b.UUID || string(a.Payload) != string(b.Payload) || len(a.Metadata) != len(b.Metadata) {
